@@ -133,7 +133,7 @@ func (c *cloner) val(v Value) Value {
 	switch x := v.(type) {
 	case nil:
 		return nil
-	case *Term, Str, Float, *ssa.Builtin:
+	case *Term, Str, Float, UnknownFloat, *ssa.Builtin:
 		return v
 	case Ptr:
 		return c.ptr(x)
@@ -223,7 +223,7 @@ func (c *cloner) thread(t *Thread) *Thread {
 // re-asserted lazily).
 func (s *State) clone() *State {
 	c := newCloner()
-	n := &State{prog: s.prog, ex: s.ex, objCtr: s.objCtr, pcSent: 0, steps: 0, atomic: s.atomic, nowCtr: s.nowCtr, lastNow: s.lastNow,
+	n := &State{prog: s.prog, ex: s.ex, objCtr: s.objCtr, pcSent: 0, steps: 0, atomic: s.atomic, nowCtr: s.nowCtr, lastNow: s.lastNow, firstNow: s.firstNow,
 		preempts: s.preempts, begun: s.begun, ticks: s.ticks, firstRange: s.firstRange}
 	n.schedPts = append([]schedPt{}, s.schedPts...)
 	n.pc = append([]*Term{}, s.pc...)
